@@ -290,6 +290,7 @@ def violations(name, args, emitted):
 
 # ------------------------------------------------------------------------------------------ driver
 def run_generated_rows(ctx, names=None):
+    gencheck.CTX = ctx
     names = [n for n in ORDER if n in (names or ORDER) and os.path.exists(os.path.join(common.COQ, "gen_proofs", PROOFS[n]))]
     base = os.path.join(common.OUT, "work", "gen"); os.makedirs(base, exist_ok=True)
     build = tempfile.mkdtemp(prefix="rows_", dir=base)
